@@ -315,6 +315,8 @@ class ScriptBackend(TrialBackend):
         self.nfail = 0
         self.exited = {}      # tid -> True once the worker process of the current run has ended
         self.tuner = None
+        self.fault_at = 0             # the fault_at-th _schedule call raises (0 = never): a backend that fails to launch a job
+        self.n_schedule = 0
         self.stop_lag = stop_lag      # a stopped job stays busy ("Stopping") for up to this many further polls
         self.stop_ticks = {}
         self.seen_failed = set()      # trials whose failure was shown to the loop by a poll
@@ -413,6 +415,11 @@ class ScriptBackend(TrialBackend):
         return super().resume_trial(trial_id, new_config)
 
     def _schedule(self, trial_id, config):
+        self.n_schedule += 1
+        if self.fault_at and self.n_schedule == self.fault_at:
+            self.sym.goal("backend-fault-injected")
+            self.sym.event("backend fails to launch the job of t%d" % trial_id)
+            raise RuntimeError("injected backend fault")
         first = trial_id not in self.wst
         self.wst[trial_id] = Status.in_progress
         self.exited[trial_id] = False
@@ -466,6 +473,8 @@ class ScriptBackend(TrialBackend):
         for t in trial_ids:
             tr = self._trial_dict.get(t)
             if tr is None:
+                if self.fault_at:
+                    tr = self._trial_dict[t]      # like LocalBackend / SimulatorBackend: an unregistered id is a KeyError
                 continue        # start_trial was interrupted (a monitor raised inside _schedule): keep the original exception
             if self.wst[t] == Status.failed and not self.mon.tuning_over:
                 self.seen_failed.add(t)
